@@ -614,6 +614,20 @@ def _r20c(ctx, u, f):
             call = ast.parse(bis[0], mode='eval').body
             ok_line = len(call.args) == 2 and unparse(call.args[1]) == pos
             table = unparse(call.args[0])
+        if not ok_line and not bis:
+            # no bisect at all: a hand-written search.  Its correctness needs a loop invariant, which is out of reach;
+            # one thing is decidable from its shape: a result variable that only ever takes the value of
+            # `mid = (r + hi) // 2` stays below the initial `hi`, so with hi starting at len(T) - 1 the last line can
+            # never be the answer
+            verdict = _handwritten_search(f)
+            if verdict is not None:
+                ctx.refuted('R20c', u, cs.node, verdict, construct=cons + ' line')
+            else:
+                ctx.unknown('R20c', u, cs.node, 'the line is found by a hand-written search (%s), not by bisect_right: not decided'
+                            % short(line, 60), construct=cons + ' line')
+            n_shared_res[0] += 1
+            n -= 1
+            continue
         if not ok_line:
             ctx.refuted('R20c', u, cs.node, 'the line returned is %s, not bisect_right(T, %s) - 1 + '
                         'self.line_number_offset' % (short(line, 90), pos), construct=cons + ' line')
@@ -744,3 +758,37 @@ def moved_error_positions(tree):
                     if st is None:
                         break
                 yield (st if st is not None else n), h.name
+
+
+def _handwritten_search(f):
+    """a definite defect of a hand-written binary search in `f`, or None: the result variable r is assigned only from
+    `mid`, mid = (r + hi) // 2, so r < hi always; if hi starts at len(T) - 1 the last index is unreachable"""
+    mids = [a for a in iter_own(f) if isinstance(a, ast.Assign) and len(a.targets) == 1 and isinstance(a.targets[0], ast.Name)
+            and isinstance(a.value, ast.BinOp) and isinstance(a.value.op, ast.FloorDiv) and isinstance(a.value.left, ast.BinOp)
+            and isinstance(a.value.left.op, ast.Add) and isinstance(a.value.left.left, ast.Name)
+            and isinstance(a.value.left.right, ast.Name)]
+    if len(mids) != 1 or not any(isinstance(p_, ast.While) for p_ in parents(mids[0])):
+        return None
+    mid = mids[0].targets[0].id
+    ops = {mids[0].value.left.left.id, mids[0].value.left.right.id}
+    inits = {}
+    for a in iter_own(f):
+        if isinstance(a, ast.Assign) and not any(isinstance(p_, ast.While) for p_ in parents(a)):
+            for t, v in (zip(a.targets[0].elts, a.value.elts) if isinstance(a.targets[0], ast.Tuple) and isinstance(a.value, ast.Tuple)
+                         else [(a.targets[0], a.value)]):
+                if isinstance(t, ast.Name) and t.id in ops:
+                    inits[t.id] = v
+    env = affine.single_assign_env(f)
+    for name, v in inits.items():
+        try:
+            nf = affine.norm(v, env)
+        except affine.NotAffine:
+            continue
+        lens = [k for k in nf[1] if k.startswith('len(')]
+        if len(lens) == 1 and nf[1][lens[0]] == 1 and len(nf[1]) == 1 and nf[0] <= -1:
+            other = sorted(ops - {name})
+            return ('the line is found by a hand-written binary search whose upper bound `%s` starts at %s: the result `%s` only '
+                    'takes values of `%s = (%s + %s) // 2`, which stay below that bound, so the last entry of the line table '
+                    'can never be chosen -- every position on the last line is reported on the line before it, with a column '
+                    'past that line\'s end' % (name, unparse(v), other[0] if other else '?', mid, *sorted(ops)))
+    return None
